@@ -17,6 +17,23 @@ fn main() {
                 println!("{}", p.id());
             }
         }
+        "show-c10" => {
+            // print the chaos program of a stored case without running it
+            let text = std::fs::read_to_string(&args[1]).unwrap();
+            let v: serde_json::Value = serde_json::from_str(&text).unwrap();
+            let st: Vec<Vec<u32>> = v["streams"].as_array().unwrap().iter().map(|a| a.as_array().unwrap().iter().map(|x| x.as_u64().unwrap() as u32).collect()).collect();
+            let mut dch = dtr_verif::choice::Ch::new(&st[2]);
+            let mut cfg = dtr_verif::props::c10::chaos_cfg();
+            cfg.expr.total = dch.chance(1, 2);
+            cfg.expr.signext = dch.chance(1, 3);
+            cfg.expr.bad_random_bounds = dch.chance(1, 3);
+            cfg.expr.random = dch.chance(2, 3);
+            cfg.maybe_unbound_refs = dch.chance(2, 3);
+            cfg.counter_rebind = dch.chance(1, 2);
+            let b = dtr_verif::gen::gen_case(&mut dtr_verif::choice::Ch::new(&st[0]), &cfg);
+            println!("{}", dtr_verif::print::canonical(&b.prog).text);
+            println!("{}", dtr_verif::model::describe_sigs(&b.sigs));
+        }
         "sample" => {
             // sample <ID> <n> [discard|fail|class:<name>|any]  - print matching generated cases (debug aid)
             let p = props::by_id(args.get(1).map(|s| s.as_str()).unwrap_or("")).expect("property");
